@@ -343,9 +343,10 @@ Fixpoint sort_insert (a : N) (l : list N) : list N :=
   end.
 Definition sort_ids (l : list N) : list N := fold_right sort_insert [] l.
 
-Definition merge (c : cfg) (s : st) (ord : list bytes) : res (st * unit * list syscall) :=
+Definition merge_with (selector : cfg -> st -> res (list N)) (c : cfg) (s : st) (ord : list bytes)
+  : res (st * unit * list syscall) :=
   let id0 := s_last s + 1 in
-  match select c s with
+  match selector c s with
   | RFail e => RFail e | RPanicked e => RPanicked e
   | ROk sel0 =>
     let sel := sort_ids sel0 in
@@ -367,6 +368,8 @@ Definition merge (c : cfg) (s : st) (ord : list bytes) : res (st * unit * list s
       end
     end
   end.
+
+Definition merge := merge_with select.
 
 (* ---------- rebuild_storage / open ---------- *)
 Definition ins_loc (ix : index * stats_t) (k : bytes) (l : loc) : option (index * stats_t) :=
